@@ -169,7 +169,7 @@ def w0(ck: Check, fm: FuncModel, loop: ast.For) -> None:
 def while_loop(ck: Check, fm: FuncModel, loop: ast.While) -> None:
     attempts: list[tuple[str, list[str]]] = []
     for name, rec in (("shrinking container", rec_shrink), ("level worklist", rec_level), ("stack worklist", rec_stack),
-                      ("queue worklist", rec_queue),
+                      ("queue worklist", rec_queue), ("counter", rec_counter),
                       ("flag-controlled fixpoint", rec_flag), ("geometric budget", rec_geom), ("retry with growing key", rec_retry)):
         res = rec(ck, fm, loop)
         if res is None:
@@ -615,6 +615,53 @@ def rec_stack(ck, fm: FuncModel, loop):
     if probs:
         return False, "; ".join(probs[:3])
     return True, f"each iteration pops a frame; re-pushed frames shrink `{L}`; fresh frames only for nodes new to the seen set"
+
+
+# ---- counters ------------------------------------------------------------------------------
+def rec_counter(ck, fm: FuncModel, loop):
+    """while i >= c: ... i -= k   /   while i < n: ... i += k   (k a positive constant on every path, i not written
+    otherwise; the bound is a constant, or -- for the increasing form -- a name / len() of a name not written in the loop)."""
+    t = loop.test
+    conj = t.values if isinstance(t, ast.BoolOp) and isinstance(t.op, ast.And) else [t]
+    for c in conj:
+        if not (isinstance(c, ast.Compare) and len(c.ops) == 1):
+            continue
+        l, op, r = c.left, c.ops[0], c.comparators[0]
+        for var, bound, down in ((l, r, isinstance(op, (ast.Gt, ast.GtE))), (r, l, isinstance(op, (ast.Lt, ast.LtE)))):
+            if not isinstance(var, ast.Name) or isinstance(op, (ast.Eq, ast.NotEq, ast.In, ast.NotIn, ast.Is, ast.IsNot)):
+                continue
+            i = var.id
+            writes = _assigns(fm, loop, i)
+            if not writes:
+                continue
+            steps = set()
+            okw = True
+            for w in writes:
+                a = w.ast if w.kind == "stmt" else None
+                good = isinstance(a, ast.AugAssign) and isinstance(a.target, ast.Name) and a.target.id == i \
+                    and isinstance(a.op, ast.Sub if down else ast.Add) and _pos_const(a.value)
+                if not good:
+                    okw = False
+                steps.add(w.id)
+            if not okw:
+                return False, f"the counter `{i}` is written otherwise than by a constant {'decrement' if down else 'increment'}"
+            # bound
+            if isinstance(bound, ast.Constant) and isinstance(bound.value, int):
+                pass
+            elif not down:
+                b = bound.args[0] if isinstance(bound, ast.Call) and callee_name(bound) == "len" and bound.args else bound
+                if not isinstance(b, ast.Name):
+                    continue
+                nodes = _nodes_in(fm, loop)
+                if _assigns(fm, loop, b.id) or any(_calls_on(n, b.id, GROW) for n in nodes):
+                    return False, f"the bound `{text(bound)}` of the counter can grow inside the loop"
+            else:
+                continue
+            hdr = fm.cfg.loop_header[loop]
+            if hdr.id in _within(fm, loop, _tbranch(fm, loop), steps):
+                return False, f"a path reaches the next iteration without {'decreasing' if down else 'increasing'} `{i}`"
+            return True, f"counter `{i}` moves towards its bound `{text(bound)}` by a positive constant in every iteration"
+    return None
 
 
 # ---- queue worklists -----------------------------------------------------------------------
